@@ -53,6 +53,8 @@ func main() {
 					cases = append(cases, g.multiCase(i, *prof))
 				case "extreme":
 					cases = append(cases, g.extremeCase(i))
+				case "kernel":
+					cases = append(cases, g.kernelCase(i))
 				default:
 					cases = append(cases, g.Case(i))
 				}
